@@ -467,7 +467,9 @@ def sec_discrete_select(ck, Ks):
             want = np.asarray(lpref(l, a), float)
             got = np.asarray(outs["slp_lp"], float)
             return (not np.allclose(got, want.reshape(got.shape), rtol=1e-3, atol=1e-4)), {"returned_log_prob": got.tolist(), "log_prob_of_returned_sample": want.tolist()}
-        gc = conj([xeq_arr(it.o, out["slp_lp"], o2["lp_of_a"]), xeq_arr(it.o, out["slp_s"], out["sample"])])
+        # (that sample(key) and sample_and_log_prob(key)[0] coincide is not part of the statement: a note only)
+        gc = xeq_arr(it.o, out["slp_lp"], o2["lp_of_a"])
+        ck.notes.append(f"{name}@{tag}: sample(key) and sample_and_log_prob(key)[0] are the same term: {isconc(xeq_arr(it.o, out['slp_s'], out['sample'])) and bool(xeq_arr(it.o, out['slp_s'], out['sample']))}")
         ck.prove(f"{name}.sample_logprob_consistent@{tag}", asm, gc, replay=judge_replay(tr, S, it.uf_apps, jcons), margin_goal=mg(tame, gc))
 
 
@@ -580,7 +582,7 @@ def sec_normal(ck):
         want = float(Normal(jnp.asarray(mu, jnp.float32), jnp.asarray(s, jnp.float32)).log_prob(jnp.asarray(x, jnp.float32)))
         return abs(float(outs["slp_lp"]) - want) > 1e-3 * (1 + abs(want)), {"returned_log_prob": float(outs["slp_lp"]), "log_prob_of_returned_sample": want}
     tame = between([S["loc"][()]] + uf_terms(it, "RAND_normal"), -1, 1) + between([sc], Fraction(1, 2), 2)
-    gn = conj([eq_arr(out["slp_lp"], o2["lp"]), eq_arr(out["slp_s"], out["sample"])])
+    gn = eq_arr(out["slp_lp"], o2["lp"])
     ck.prove("normal.sample_logprob_consistent", asm, gn, replay=judge_replay(tr, S, it.uf_apps, jcons), nonlinear=True, margin_goal=mg(tame, gn))
     ck.control("control.normal.logprob_ignores_scale", asm, eq_arr(out["slp_lp"], arr0(it.o.sub(o2["lp"][()], 1))), nonlinear=True)
 
@@ -612,7 +614,7 @@ def sec_mvn(ck, D):
     def jcons(outs, ins):
         want = float(MultivariateNormalDiag(jnp.asarray(ins["loc"], jnp.float32), jnp.asarray(ins["sc"], jnp.float32)).log_prob(jnp.asarray(outs["slp_s"], jnp.float32)))
         return abs(float(outs["slp_lp"]) - want) > 1e-3 * (1 + abs(want)), {"returned_log_prob": float(outs["slp_lp"]), "log_prob_of_returned_sample": want}
-    gc = conj([eq_arr(out["slp_lp"], o2["lp"]), eq_arr(out["slp_s"], out["sample"])])
+    gc = eq_arr(out["slp_lp"], o2["lp"])
     ck.prove(f"mvn_diag.sample_logprob_consistent@D={D}", asm, gc, replay=judge_replay(tr, S, it.uf_apps, jcons), nonlinear=True, margin_goal=mg(tame, gc))
     if D == 2:
         ck.control("control.mvn_diag.logprob_is_first_component", asm, eq_arr(out["lp"], arr0(out["comp_lp"][0])), nonlinear=True)
